@@ -68,9 +68,8 @@ class IC10Register:
                     break
 
         if self._lifetime is None:
-            all_nodes = [
-                get_loop_ancestor(n) for n in self.nodes_reading + self.nodes_writing
-            ]
+            accesses = self.nodes_reading + self.nodes_writing
+            all_nodes = [get_loop_ancestor(n, accesses) for n in accesses]
             min_line = (
                 min(node.lineno for node in all_nodes) if all_nodes else sys.maxsize
             )
